@@ -82,16 +82,25 @@ def run(ctx, repo, tier):
     contexts = 0
     shape_ok = 0
     shape_unknown = 0
+    # every size is requested by its number; one-point grids additionally by the number-less spelling "zero" (what the scripts recommend)
+    specs = []
     for cart in (False, True):
         for nb in box_b:
             for no in box_o:
                 for nt in box_t:
+                    specs.append((cart, nb, no, nt, str(nb), str(no)))
+                    if nb == 1 or no == 1:
+                        specs.append((cart, nb, no, nt, "zero" if nb == 1 else str(nb), "zero" if no == 1 else str(no)))
+    for cart, nb, no, nt, bname, oname in specs:
+        if True:
+            if True:
+                if True:
                     contexts += 1
                     n_total = nb * no * nt
                     hooks = FGHooks(repo, nb, no, nt)
                     interp = Interp(repo, hooks, max_depth=20)
                     radii = "[" + ", ".join(str(round(0.1 * (k + 1), 1)) for k in range(nt)) + "]"
-                    fg = build_fullgrid(repo, interp, Const(str(nb)), Const(str(no)), Const(radii), cartesian=cart)
+                    fg = build_fullgrid(repo, interp, Const(bname), Const(oname), Const(radii), cartesian=cart)
                     results = {}
                     for g in GETTERS:
                         fv = interp.getattr(fg, g)
@@ -105,7 +114,7 @@ def run(ctx, repo, tier):
                             continue
                         # guards that are decidable in this concrete context were decided; remaining guards are value-dependent
                         key = (kind, where.split(": ")[0], where)
-                        seen.setdefault(key, []).append((nb, no, nt, cart, guards))
+                        seen.setdefault(key, []).append((nb, no, nt, cart, guards, bname, oname))
                     # qhull needs at least dim + 2 input points for a 3-D Voronoi diagram: with three or more directions the Cartesian
                     # mode must hand it enough points for every accepted number of shells (fewer directions may fail there by design)
                     for ev_ in interp.events:
@@ -114,7 +123,7 @@ def run(ctx, repo, tier):
                             if no >= 3 and ev_[2].as_const() < 5:
                                 key = ("QhullError", ev_[3], f"{ev_[3]}: scipy.spatial.Voronoi receives too few points to build a 3-D diagram "
                                                              "(needs at least 5): QhullError (a RuntimeError, not a deliberate ValueError)")
-                                seen.setdefault(key, []).append((nb, no, nt, cart, (f"{int(ev_[2].as_const())} points",)))
+                                seen.setdefault(key, []).append((nb, no, nt, cart, (f"{int(ev_[2].as_const())} points",), bname, oname))
                     # LEN: constant subscripts on exactly known lengths
                     for node, w, ln, ix, guards, what in interp.index_obligations:
                         if ln is None or not ln.is_const() or not ix.is_const():
@@ -123,7 +132,7 @@ def run(ctx, repo, tier):
                         ctx.instance("LEN")
                         if not (-L <= I < L):
                             key = ("IndexError", w, f"{w}: {what} {I} on a sequence of exact length {L}: {src(node) if node is not None else ''}")
-                            seen.setdefault(key, []).append((nb, no, nt, cart, guards))
+                            seen.setdefault(key, []).append((nb, no, nt, cart, guards, bname, oname))
                     # shapes
                     for g in ("get_full_adjacency", "get_full_borders", "get_full_distances"):
                         sh = shape_of(interp, results[g])
@@ -133,13 +142,13 @@ def run(ctx, repo, tier):
                             shape_ok += 1
                         else:
                             key = ("Shape", f"molgri/space/fullgrid.py:FullGrid.{g}", f"{g}: result is not (n_total, n_total)")
-                            seen.setdefault(key, []).append((nb, no, nt, cart, (f"{sh[0].pretty()} x {sh[1].pretty()} for n_total={n_total}",)))
+                            seen.setdefault(key, []).append((nb, no, nt, cart, (f"{sh[0].pretty()} x {sh[1].pretty()} for n_total={n_total}",), bname, oname))
                     vol = results["get_total_volumes"]
                     ln = value_len(vol)
                     if ln is not None and ln.is_const():
                         if ln.as_const() != n_total:
                             key = ("Shape", "molgri/space/fullgrid.py:FullGrid.get_total_volumes", "get_total_volumes: number of volumes differs from the number of cells")
-                            seen.setdefault(key, []).append((nb, no, nt, cart, (f"{ln.as_const()} volumes for {n_total} cells",)))
+                            seen.setdefault(key, []).append((nb, no, nt, cart, (f"{ln.as_const()} volumes for {n_total} cells",), bname, oname))
                         else:
                             shape_ok += 1
                     arr = results["get_full_grid_as_array"]
@@ -147,7 +156,7 @@ def run(ctx, repo, tier):
                         d0 = arr.attrs["dims"].items_p
                         if len(d0) == 2 and d0[0].is_const() and (d0[0].as_const() != n_total or d0[1] != Poly.const(7)):
                             key = ("Shape", "molgri/space/fullgrid.py:FullGrid.get_full_grid_as_array", "get_full_grid_as_array: array is not (n_total, 7)")
-                            seen.setdefault(key, []).append((nb, no, nt, cart, (f"{d0[0].pretty()} x {d0[1].pretty()} for n_total={n_total}",)))
+                            seen.setdefault(key, []).append((nb, no, nt, cart, (f"{d0[0].pretty()} x {d0[1].pretty()} for n_total={n_total}",), bname, oname))
                         else:
                             shape_ok += 1
     ctx.extra["contexts"] = contexts
@@ -156,7 +165,7 @@ def run(ctx, repo, tier):
     ctx.exhaustive = True
     rule_of = {"AttributeError": "INIT", "IndexError": "LEN", "TypeError": "SIG", "Shape": "LAYOUT", "QhullError": "DOM"}
     for (kind, where, text), ctxs in sorted(seen.items(), key=lambda x: str(x[0])):
-        nb, no, nt, cart, guards = ctxs[0]
+        nb, no, nt, cart, guards, bname, oname = ctxs[0]
         sizes = sorted({(c[0], c[1], c[2]) for c in ctxs})
         modes = sorted({("cartesian" if c[3] else "spherical") for c in ctxs})
         # Cartesian mode with fewer than three directions may fail inside the geometry library
@@ -172,7 +181,7 @@ def run(ctx, repo, tier):
                     f"({'; '.join(modes)} mode)" if kind != "Shape" else "result of a getter has the wrong shape", where.split(": ")[0] if ": " in where else where,
                     construct=text[:300], witness=(f"{guards[0]}; " if kind in ("Shape", "QhullError") and guards else "") +
                     f"sizes (n_b, n_o, n_t) = {sizes[:6]}{' ...' if len(sizes) > 6 else ''}; "
-                    f"e.g. FullGrid('{nb}', '{no}', <{nt} radii>, position_grid_cartesian={cart})", key=key)
+                    f"e.g. FullGrid('{bname}', '{oname}', <{nt} radii>, position_grid_cartesian={cart})", key=key)
     if not seen:
         ctx.ok("EXC", "C19.escape", f"no AttributeError / IndexError / TypeError escapes in any of the {contexts} contexts "
                f"(sizes x modes) x {len(GETTERS)} getters + construction", "molgri/space/fullgrid.py:FullGrid")
